@@ -212,7 +212,61 @@ def job(j):
     return st, fix
 
 
+def job_overlap(j):
+    """Overlapping callers on one object (C06's harness: start offsets x per-transmission letters): the callers are
+    serialised, so the transport clauses hold at every transmission and connect, after the last caller and after close()."""
+    from . import c06
+    from ..explore import explore, Ctx
+    cfg, mode, bound = j
+    cfg = dict(cfg, peer_cls=WatchPeer)
+    st = Stats()
+    vio = {}
+
+    def judge(o):
+        out = []
+        if o['status'] == 'hang':
+            return out
+        if any(w[1] > 1 for w in o['watch']):
+            out.append(('at-most-one', f"{max(w[1] for w in o['watch'])} transports open at a transmission / connect of overlapping callers"))
+        if o['open_end'] > 1:
+            out.append(('at-most-one', f"{o['open_end']} open after the overlapping callers completed"))
+        if not cfg['ka'] and o['open_end'] != 0:
+            out.append(('keepalive-off:closed-after-request', f"{o['open_end']} open after the overlapping callers completed"))
+        if o['leaked'] > 0:
+            out.append(('no-socket-leak', f"{o['leaked']} socket(s) open without an open transport after the overlapping callers completed"))
+        if o['open_closed'] != 0 or o['leaked_closed'] > 0:
+            out.append(('closed-after-close()', f"{o['open_closed']} transports / {o['leaked_closed']} stray sockets open after close()"))
+        return out
+
+    def on_exec(ctx, o):
+        st.note(ctx, (o['status'], o['open_end']))
+        for clause, cause in judge(o):
+            vio.setdefault(clause, []).append((ctx.choices, cause))
+    depth = (cfg['N'] - 1) + cfg['N'] * (cfg['R'] + 1) + 2
+    n, capped = explore(lambda ctx: c06.run_one(cfg, ctx), depth=depth, deviations=bound if mode == 'deviations' else None, on_exec=on_exec)
+    out = []
+    for clause, lst in vio.items():
+        lst.sort(key=lambda x: (sum(1 for c in x[0] if c), len(x[0]), x[0]))
+        choices, cause = lst[0]
+        key = f"{clause}/{cfg['transport']}/ka={int(cfg['ka'])}/overlapping-callers"
+        rc = {k: v for k, v in cfg.items() if k != 'peer_cls'}
+        out.append(dict(key=key, clause=clause, n=len(lst), replay=dict(part='overlap', cfg=rc, choices=choices),
+                        detail=dict(cause=cause, callers=cfg['N'], choices=list(choices))))
+    st.violations = out
+    st.capped = capped
+    return st
+
+
 def run(tier, seed, rep):
+    ov_jobs = []
+    for tr in ('udp', 'tcp'):
+        for ka in (False, True):
+            ov_jobs.append((dict(transport=tr, ka=ka, T=1, R=1, N=2), 'product', None))
+            ov_jobs.append((dict(transport=tr, ka=ka, T=1, R=0, N=3), 'product' if tier == 'thorough' else 'deviations', None if tier == 'thorough' else 3))
+    ov = Stats()
+    for st in pmap(job_overlap, ov_jobs):
+        ov.merge(st)
+    rep.add_many(ov.violations)
     # histories of several requests on one object under the full fault alphabet (mc/sessions.py)
     from .. import sessions
     _ses = sessions.explore_sessions(tier, seed, {'C10'}, light=True)
@@ -230,7 +284,7 @@ def run(tier, seed, rep):
         fixes += bool(fix)
         per.append(dict(cfg=j[0], histories=st.executions, states=len(st.states), fixpoint_below_depth=fix))
     rep.add_many(total.violations)
-    cov = dict(session_histories=_ses.executions, session_states=len(_ses.states), session_choice_points=_ses.choice_points,
+    cov = dict(overlapping_caller_executions=ov.executions, session_histories=_ses.executions, session_states=len(_ses.states), session_choice_points=_ses.choice_points,
                states=len(total.states), transitions=len(total.edges), executions=total.executions,
                traces_validated_against_impl=total.executions, exhaustive=True,
                bound=f'BFS over histories of <= {depth} operations (requests with fault scripts, close(), new event '
@@ -249,5 +303,10 @@ def replay(r):
         out = sessions.replay(r)
         out['violations'] = [m for m in out['violations'] if m[0] == 'C10']
         return out
+    if r.get('part') == 'overlap':
+        from . import c06
+        from ..explore import Ctx
+        o = c06.run_one(dict(r['cfg'], peer_cls=WatchPeer), Ctx(r['choices']), fp=False)
+        return dict(watch=o['watch'], open_end=o['open_end'], leaked=o['leaked'], open_after_close=o['open_closed'])
     v, _, _ = run_history(r['cfg'], r['history'])
     return dict(history=r['history'], violations=v)
